@@ -23,18 +23,20 @@ Base == {"Declare", "Post0", "PostPlain", "PostUnknown", "Commit0", "Rollback0",
          "BigAborted0"}
 \* PostBigS0: a two-frame post whose continuation frame repeats the delivery-id, the tag and the transactional state (legal, and what a
 \* transport-level split of the sender produces); what follows on that link is a delivery of its own
-Two == {"Post1", "Commit1", "Rollback1", "PostBig0", "PostBigS0"}
+\* Interleave0: two two-frame posts of one transaction on two links with their frames interleaved on the wire (frames of one delivery are
+\* contiguous per link, not per session)
+Two == {"Post1", "Commit1", "Rollback1", "PostBig0", "PostBigS0", "Interleave0"}
 More == {"Post0b", "Recvb", "Retire1", "RetireUnknown"}
 Ev == Base \cup Two \cup (IF Deep THEN More ELSE {})
 Enabled(e) ==
   /\ ~dead
-  /\ (e \in {"Post0", "Commit0", "Rollback0", "CommitPost0", "RollbackPost0", "PostBig0", "PostBigS0", "Post0b", "BigAborted0"} => nd >= 1)
-  /\ (e \in Two \ {"PostBig0", "PostBigS0"} => nd >= 2)
+  /\ (e \in {"Post0", "Commit0", "Rollback0", "CommitPost0", "RollbackPost0", "PostBig0", "PostBigS0", "Interleave0", "Post0b", "BigAborted0"} => nd >= 1)
+  /\ (e \in Two \ {"PostBig0", "PostBigS0", "Interleave0"} => nd >= 2)
   /\ (e \in {"Declare", "Commit0", "Rollback0", "Commit1", "Rollback1", "DischUnknown", "CtlDetach", "CommitPost0", "RollbackPost0"} => up)
   /\ (e = "Declare" => nd < 3)
   /\ (e = "CtlAttach" => ~up)
   /\ (e = "BigFirst0" => nd >= 1 /\ ~open) /\ (e = "BigRest" => open)
-  /\ (e \in {"Post0", "Post1", "PostPlain", "PostUnknown", "PostBig0", "PostBigS0", "CommitPost0", "RollbackPost0", "BigAborted0"} => ~open)     \* one delivery at a time on L2
+  /\ (e \in {"Post0", "Post1", "PostPlain", "PostUnknown", "PostBig0", "PostBigS0", "Interleave0", "CommitPost0", "RollbackPost0", "BigAborted0"} => ~open)     \* one delivery at a time on L2
   /\ (e = "SendU" => ~sent) /\ (e \in {"Retire0", "Retire1", "RetirePlain", "RetireUnknown"} => sent)
   /\ (e = "Retire0" => nd >= 1) /\ (e = "Retire1" => nd >= 2)
 Next == \E e \in Ev : /\ Len(script) < Depth /\ Enabled(e) /\ script' = Append(script, e)
@@ -73,6 +75,10 @@ Conc(e, d, m) ==
     [] e = "Post1" -> <<Post(6, d, m, Ref(1))>>
     [] e = "Post0b" -> <<Post(7, d, m, Ref(0))>>
     [] e = "PostBig0" -> Big(d, m, Ref(0))
+    [] e = "Interleave0" -> << Big(d, m, Ref(0))[1],
+                               [e |-> "PFrame", perf |-> "transfer", ch |-> 3, f |-> Xs(7, d + 1, TRUE, TxState(Ref(0))), msg |-> [m |-> m + 1, len |-> 100, off |-> 0, n |-> 40, shape |-> "data"]],
+                               Big(d, m, Ref(0))[2],
+                               [e |-> "PFrame", perf |-> "transfer", ch |-> 3, f |-> [h |-> 7, did |-> -1, tagn |-> -1, fmt |-> -1, settled |-> "none", more |-> FALSE], msg |-> [m |-> m + 1, len |-> 100, off |-> 40, n |-> -1, shape |-> "data"]] >>
     [] e = "PostBigS0" -> << Big(d, m, Ref(0))[1],
                              [e |-> "PFrame", perf |-> "transfer", ch |-> 3, f |-> Xs(6, d, FALSE, TxState(Ref(0))), msg |-> [m |-> m, len |-> 100, off |-> 40, n |-> -1, shape |-> "data"]] >>
     [] e = "BigFirst0" -> <<Big(d, m, Ref(0))[1]>>
@@ -99,8 +105,8 @@ Conc(e, d, m) ==
     [] e = "PEnd" -> <<PF("end", [err |-> ""])>>
     [] e = "Recv" -> <<[e |-> "ARecv", l |-> "L2"]>>
     [] e = "Recvb" -> <<[e |-> "ARecv", l |-> "L3"]>>
-Dels(e) == IF e \in {"CtlDetach", "CtlAttach", "Recv", "Recvb", "BigRest", "SendU", "Retire0", "Retire1", "RetirePlain", "RetireUnknown", "PEnd"} THEN 0 ELSE IF e \in {"CommitPost0", "RollbackPost0"} THEN 2 ELSE 1
-Msgs(e) == IF e \in {"Post0", "Post1", "Post0b", "PostBig0", "PostBigS0", "BigFirst0", "BigAborted0", "PostPlain", "PostUnknown", "CommitPost0", "RollbackPost0"} THEN 1 ELSE 0
+Dels(e) == IF e \in {"CtlDetach", "CtlAttach", "Recv", "Recvb", "BigRest", "SendU", "Retire0", "Retire1", "RetirePlain", "RetireUnknown", "PEnd"} THEN 0 ELSE IF e \in {"CommitPost0", "RollbackPost0", "Interleave0"} THEN 2 ELSE 1
+Msgs(e) == IF e = "Interleave0" THEN 2 ELSE IF e \in {"Post0", "Post1", "Post0b", "PostBig0", "PostBigS0", "BigFirst0", "BigAborted0", "PostPlain", "PostUnknown", "CommitPost0", "RollbackPost0"} THEN 1 ELSE 0
 RECURSIVE Body(_, _, _, _), Decls(_)
 Body(sc, i, d, m) == IF i > Len(sc) THEN <<>> ELSE Conc(sc[i], d, m) \o Body(sc, i + 1, d + Dels(sc[i]), m + Msgs(sc[i]))
 Decls(k) == IF k >= Pre THEN <<>> ELSE <<Decl(k)>> \o Decls(k + 1)
